@@ -118,6 +118,20 @@ CHECKS["C18"] = dict(
     note="Lines containing the characters of the configured direction marks are checked for the permutation property only. "
          "Alef maksura is taken as right-joining (Arabic / Persian usage).")
 
+for _p, _t in (("C07", "cursor motions"), ("C08", "operators, inserts, puts, registers"), ("C13", "searches")):
+    CHECKS[_p] = dict(
+        level="model_checking",
+        text="Vi.tla gives every command of visual mode one meaning (ViCmd) over the text and registers of Ex.tla, with columns "
+             "from Layout.tla: motions as scanners over character kinds, regions (exclusive / inclusive / line-wise), the fold of "
+             "insert-mode keys with autoindent, puts, joins, replaces, the searches with whole-line context; Gen_Vi.tla builds seeded "
+             "key sequences from the model state (%s), TLC evaluates the spec's own properties on every command (cursor on an "
+             "existing character, motions leave the text alone) and writes the expected state; the keys are typed into the traced "
+             "vi -v and text, cursor, sticky column and registers are compared at every command boundary." % _t,
+        design="8/" + _p, technique="TLA+ reference of visual mode (Vi.tla) evaluated by TLC; behaviours replayed into the traced binary (M1)",
+        note="Sampled behaviours (seeded). Window 23x80 with buffers that fit, so H M L do not depend on scrolling policy. Known "
+             "deviations are recognised only when the recorded state equals the operational transcription kept in the spec and the "
+             "pattern has a word-boundary anchor.")
+
 NOT_YET = {}
 
 def main():
